@@ -72,7 +72,29 @@ type MapInv struct {
 	Src      string
 }
 
+// Guard: fields of a struct type that may only be accessed while its mutex field is held.
+type Guard struct {
+	TypeText string
+	Pkg      string
+	Fields   []string
+	Mutex    string
+	Src      string
+}
+
+// Monitor: an invariant over the state guarded by a mutex; it may be assumed right
+// after Lock and must hold again at every Unlock.
+type Monitor struct {
+	TypeText string
+	Pkg      string
+	Mutex    string
+	Expr     *CExpr
+	Text     string
+	Src      string
+}
+
 type Registry struct {
+	Monitors  []*Monitor
+	Guards    []*Guard
 	MapInvs   []*MapInv
 	Contracts map[string]*Contract
 	Specs     map[string]*SpecFn // by name (unqualified, must be unique) and pkg#name
@@ -88,7 +110,7 @@ func newRegistry() *Registry {
 var stmtKeywords = map[string]bool{
 	"package": true, "func": true, "requires": true, "ensures": true, "assume_ensures": true, "modifies": true, "loop": true,
 	"invariant": true, "option": true, "trusted": true, "pure": true, "spec": true, "ufunc": true,
-	"axiom": true, "ghost": true, "decreases": true, "opaque": true, "mapvalues": true,
+	"axiom": true, "ghost": true, "decreases": true, "opaque": true, "mapvalues": true, "guarded": true, "monitor": true,
 }
 
 type rawStmt struct {
@@ -120,7 +142,7 @@ func (r *Registry) loadContractFile(path string, pkgPath string) error {
 		} else if isGo {
 			continue
 		}
-		if t == "" || strings.HasPrefix(t, "#") {
+		if t == "" || strings.HasPrefix(t, "#") || strings.HasPrefix(t, "//#") {
 			continue
 		}
 		if i := strings.Index(t, " //#"); i >= 0 { // trailing comment
@@ -287,6 +309,29 @@ func (r *Registry) loadContractFile(path string, pkgPath string) error {
 				return fail("%v", err)
 			}
 			r.Axioms = append(r.Axioms, &Axiom{Name: strings.TrimSpace(name), Pkg: pkgPath, Expr: e, Text: strings.TrimSpace(text), Src: s.src})
+			cur = nil
+		case "monitor":
+			m := regexp.MustCompile(`^(\S+)\s+by\s+(\w+)\s*:\s*(.+)$`).FindStringSubmatch(s.rest)
+			if m == nil {
+				return fail("monitor needs 'Type by mutexField: expr over self'")
+			}
+			e, err := parseCExpr(m[3])
+			if err != nil {
+				return fail("%v", err)
+			}
+			r.Monitors = append(r.Monitors, &Monitor{TypeText: m[1], Pkg: pkgPath, Mutex: m[2], Expr: e, Text: m[3], Src: s.src})
+			cur = nil
+		case "guarded":
+			// guarded T: f1, f2 by mu
+			m := regexp.MustCompile(`^(\S+)\s*:\s*(.+?)\s+by\s+(\w+)$`).FindStringSubmatch(s.rest)
+			if m == nil {
+				return fail("guarded needs 'Type: f1, f2 by mutexField'")
+			}
+			g := &Guard{TypeText: m[1], Pkg: pkgPath, Mutex: m[3], Src: s.src}
+			for _, f := range strings.Split(m[2], ",") {
+				g.Fields = append(g.Fields, strings.TrimSpace(f))
+			}
+			r.Guards = append(r.Guards, g)
 			cur = nil
 		case "mapvalues":
 			tt, text, ok := strings.Cut(s.rest, ":")
